@@ -306,6 +306,23 @@ theorem dtd_tokens_default_kept (d : DtdAttrDecl) (v : Str) (hv : d.value = some
 example : readAttr (dtdAttrField { default := .noneD, value := some "t1 t2".toList, tokens := true }) none
     = some (some "t1 t2".toList) := by decide
 
+/-- **Every declared default is materialised, whatever the text** — the empty string (`a CDATA ""`), a blank,
+`0`, `false`, `None` are defaults like any other: an element that omits the attribute is read with the declared
+value (`DtdMapper.build_attribute_restrictions` tests `default_value is not None`, not its truth value). -/
+theorem dtd_declared_default_materialised (d : DtdAttrDecl) (v : Str) (hv : d.value = some v)
+    (hk : d.default = .fixed ∨ d.default = .noneD) :
+    readAttr (dtdAttrField d) none = some (some v) := by
+  rw [dtd_tokens_default_kept d v hv hk]
+  simp [readAttr]
+
+/-- `suffix CDATA ""`, attribute absent → the empty string, from a field with the default `""` -/
+example : dtdAttrField { default := .noneD, value := some [] } = some { init := true, default := .value [] } := by decide
+example : readAttr (dtdAttrField { default := .noneD, value := some [] }) none = some (some []) :=
+  dtd_declared_default_materialised _ [] rfl (Or.inr rfl)
+
+/-- … which is not the declaration without default (`#IMPLIED`): that one reads as "no attribute" -/
+example : readAttr (dtdAttrField { default := .implied }) none = some none := by decide
+
 /-- a list-typed attribute without default (`#IMPLIED`, `#REQUIRED`) gets `default_factory=list` -/
 theorem dtd_tokens_no_default (d : DtdAttrDecl) (ht : d.tokens = true) (hv : d.value = none)
     (hk : d.default = .required ∨ d.default = .implied) :
